@@ -462,7 +462,18 @@ func (e *FnEnc) applyContract(c *FuncContract, calleeName string, calleePkg *typ
 		e.note("contract of " + calleeName + " has no modifies clause: the call havocs the heap")
 	}
 	if all {
-		e.havocAll()
+		keeps := ""
+		for pat, tr := range e.c.Opaque {
+			if strings.HasPrefix(tr, "keeps:") && (pat == calleeName || strings.HasSuffix(calleeName, "."+pat) || strings.HasSuffix(calleeName, pat)) {
+				keeps = tr[6:]
+			}
+		}
+		if keeps != "" {
+			e.note("assumed frame: " + calleeName + " may write anything except " + keeps + " (in " + e.key + ")")
+			e.havocAllKeeping(keeps)
+		} else {
+			e.havocAll()
+		}
 	} else {
 		e.havocTargets(ts)
 	}
@@ -581,6 +592,9 @@ func (e *FnEnc) opaqueCall(cc *ssa.CallCommon, args []Val, resT types.Type, name
 		e.note("logging / metrics libraries (log4go, go-lib log, web-monitor metrics) are assumed to write no state of packages under contract; their results are unconstrained")
 	case noEffectCallees[name]:
 		e.note("lock operations are no-ops (sequential semantics)")
+	case strings.HasPrefix(treat, "keeps:"):
+		e.note("assumed frame: " + name + " may write anything except " + treat[6:] + " (in " + e.key + ")")
+		e.havocAllKeeping(treat[6:])
 	case treat == "pure":
 		e.note("assumed frame: " + name + " writes nothing (in " + e.key + ")")
 	case treat == "args" || (!repo && treat == ""):
